@@ -220,7 +220,7 @@ META = {
             'packets generated a stamp-order obligation',
     'required_labels': ['c14.stamp-order', 'c14.static-fairness', 'c14.each-once'],
     'required_covers': ['nontrivial', 'virtual-time-reset', 'fairness-evaluated'],
-    'bounds': {'quick': 'n=4 packets, 2-3 classes, weights {1,1},{1,2},{1,1,2}, vticks {1,1},{1,2},{4,1}; rate 8; sizes, gaps unbounded',
+    'bounds': {'quick': 'n=4 packets, 2-3 classes, weights {1,1},{1,2},{1,1,2}, vticks {1,1},{1,2},{4,1}; rate 8; sizes, gaps unbounded; arrivals in the instant the scheduler empties (late wake-up, three classes); 13-packet bursts; two-burst workloads of 6 packets; near-tie tolerance 1e-9 on non-dyadic jobs',
                'thorough': 'n=5'},
     'assumptions': ['WFQ: arrival instants differ from departure instants (the order of an arrival and the departure that '
                     'empties the scheduler at one instant decides whether virtual time is reset first; the statement does not order them)',
